@@ -46,6 +46,9 @@ def render_file(k, f, is_main):
         out.append(f"    .globl present_{k}\n    .data\n    .balign 8\npresent_{k}:\n    .quad {MARK + (k << 16) + 0xFFFF}\n")
     if is_main:
         out.append("    .text\n    .globl _start\n_start:\n    mov $60, %eax\n    xor %edi, %edi\n    syscall\n")
+    if f.get("filler"):
+        # filler global definitions, used to push later symbols to chosen symbol-table indices
+        out.append("    .data\n" + "".join(f"    .globl fill_{k}_{i}\nfill_{k}_{i}:\n" for i in range(f["filler"])) + "    .quad 0\n")
     for e in f["entries"]:
         if e[0] == "D":
             _, n, s, size, comdat = e
